@@ -1048,7 +1048,9 @@ impl<'a, 'b, W: Write> Serializer for &'a mut YamlSerializer<'b, W> {
             // We must emit an explicit indicator when the first non-empty content line
             // has leading whitespace, so the parser knows how much to strip.
             let body_base = base + 1;
-            let indent_n = self.indent_step * body_base;
+            // The indicator is relative to the indentation of the parent node, and the body
+            // is written one indentation step deeper than that node.
+            let indent_n = self.indent_step;
 
             // Check if we need an explicit indentation indicator.
             // Required when the first non-empty line has leading whitespace.
@@ -1063,8 +1065,10 @@ impl<'a, 'b, W: Write> Serializer for &'a mut YamlSerializer<'b, W> {
                 .chars()
                 .any(|c| c != '\n' && c != '\t' && c.is_control());
 
-            // If N > 9, YAML parsers reject it. Fall back to quoting.
-            if (needs_indicator && indent_n > 9) || body_not_representable {
+            // With a step other than 2 the compact `- ` forms (always two columns wide) do not
+            // keep nested nodes on multiples of the step, so the parent's column is not known
+            // here (and N > 9 is rejected by YAML parsers anyway). Fall back to quoting.
+            if (needs_indicator && indent_n != 2) || body_not_representable {
                 // Reset state and fall through to quoted string handling
                 self.pending_str_style = None;
                 self.pending_str_from_auto = false;
